@@ -913,6 +913,8 @@ func (s *AbsfsNFS) Export(mountPath string, port int) error {
 		ReadOnly: s.policy.Load().ReadOnly,
 		Port:     port,
 		Hostname: "localhost",
+		// Standard NFS clients speak ONC RPC over TCP with record marking (RFC 1831 section 10)
+		UseRecordMarking: true,
 	})
 	if err != nil {
 		return err
